@@ -1099,3 +1099,8 @@ silent('C18', 'machine-counter-step-respelled',
 # ---- C15.R7: reset() runs before the first item (mutation sweep survivor)
 fire('C15', 'machine-behaviour-never-resets', 'C15.R7', 'reset-before-first-item',
      lambda p: M.delete_stmt(p, N_MAC, 'Machine.behaviour', M.stmt_calling('self.reset')))
+
+# ---- C02.R7: get never fails after it removed the item (seed C02-e)
+fire('C02', 'reqstore-get-tests-item-truthiness (seed C02-e)', 'C02.R7', 'ReservableReqStore.get',
+     lambda p: M.replace_node(p, S_RS, 'ReservableReqStore.get', lambda n: isinstance(n, ast.If) and ast.unparse(n.test) == 'item is None',
+                              sub('if item is None:', 'if not item:')))
